@@ -1,6 +1,6 @@
 From Coq Require Import extraction.Extraction extraction.ExtrOcamlBasic.
 From TU Require Import Base C07_Model.
-Definition run := run_C07.
-Definition check := check_C07.
-Definition agree (inp m i : val) : bool := agree_C07 inp m i.
+Definition run := run_C07s.
+Definition check := check_C07s.
+Definition agree (inp m i : val) : bool := agree_C07s inp m i.
 Extraction "model.ml" run check agree.
